@@ -82,7 +82,8 @@ Qed.
    "defined symbols", every interpretation of the function symbols and every state r at which the
    guard holds and e has a value.
    guard_print = g_wf (representation) && g_self_free && g_disjoint && g_zero_fresh; the last three
-   are there because the CODE fails without them (Refuted.v). *)
+   are there because the CODE fails without them (Refuted.v).  No condition on the expressions
+   themselves is left: since fixes 08b5390 / 09fcba7 every expression is printed. *)
 Theorem print_sound :
   forall (fi : finterp) (D : list id) (x : id) (e : expr) (r : env) (l : list nmstmt) (v : Q),
     print_stmt D x e = Some l ->
@@ -106,11 +107,12 @@ Theorem print_all_sound :
 Proof. exact print_all_sound_lemma. Qed.
 
 (* The printer is total on what sympy can hand it: for a Piecewise as sympy builds it (g_sympy: a True
-   condition only in the last piece, never alone) whose expressions are printable (g_printable), and
-   for every plain printable expression, print_stmt returns code — so print_sound is not vacuous. *)
+   condition only in the last piece, never alone; a fact about inputs) and for every plain expression,
+   print_stmt returns code — so print_sound is not vacuous.  (Before fixes 08b5390 / 09fcba7 the
+   expressions additionally had to avoid two-argument functions and 1/f(x).) *)
 Theorem print_total :
   forall (D : list id) (x : id) (e : expr),
-    g_sympy e = true -> g_printable e = true -> exists l, print_stmt D x e = Some l.
+    g_sympy e = true -> exists l, print_stmt D x e = Some l.
 Proof. exact print_total_lemma. Qed.
 
 (* A syntactic criterion for the two state-dependent conjuncts: when the several-logical-IFs form is
@@ -128,9 +130,9 @@ Proof. exact categorical_guard_lemma. Qed.
 (* ---------------- NMTranPrinter: boolean conditions ------------------------------------------- *)
 (* The text printed for a sympy condition (And/Or/Not over relations), read with Fortran's operator
    precedence, has the truth value of the condition at every state and under every interpretation —
-   provided every And/Or has exactly two arguments (g_binary), no Or stands directly under an And
-   (g_prec) and no literal True/False occurs (g_nobool).  The first two conjuncts are there because
-   the code fails without them (Refuted.v). *)
+   for And/Or of ANY number of arguments and any nesting; guard_cond only excludes the literals
+   True/False (g_nobool: not NM-TRAN syntax, folded away by sympy — a fact about inputs).
+   (Before fix 5cd6b91 the theorem needed g_binary and g_prec.) *)
 Theorem cond_print_sound :
   forall c : scond, guard_cond c = true ->
     exists c' : cond, printed_cond c = Some c' /\ forall r fi, evalc r fi c' = evalc r fi (sem c).
